@@ -8,9 +8,13 @@ Part A (proof): Properties/C10.v — checksum model (ChecksumModel.v) with linea
   Descriptor::from_str (every accepted edit is a violation with the string as replay).
 Part B (proof): expression-tree parser model (ExprTreeModel.v), tree_rt / tree_total; tie:
   parser observations on generated and edited strings compared with the model inside Coq.
-Part C (correspondence/oracle only — the printers/parsers of miniscripts, descriptors,
-  policies and keys are NOT modelled in Coq): differential round trips on the real code with an
-  independent structural dump."""
+Part C (correspondence/oracle only — the printers/parsers of descriptors, policies and keys are NOT
+  modelled in Coq): differential round trips on the real code with an independent structural dump.
+Part D (proof): miniscript text layer — model MsTextModel.v of Display for Terminal (to_tree) and of
+  FromTree for Miniscript (from_tree), theorems C10_ms_print_parse / C10_ms_print_fixpoint /
+  C10_ms_parse_valid / C10_ms_alias_meaning; tie: Tree::from_str + Miniscript::from_tree + Display in the
+  four contexts on generated (three spellings), exhaustive wrapper-prefix, directed malformed and edited
+  texts, compared with the model inside Coq (Tables/MsTextCasesCheck.v)."""
 import json, os, re
 import vlib
 
@@ -416,23 +420,32 @@ def run(rep, tier, seed, replay):
     rep.coverage.update(cov)
     rep.coverage.update({
         "obligations": obligations, "discharged": discharged,
-        "checker_cmd": "make -C coq ; coqc Properties/C10.v ; verif-harness text cktab | coqc Tables/ChecksumTables{Gen,Defs,Check}.v ; verif-harness text cksub",
+        "checker_cmd": "make -C coq ; coqc Properties/C10.v ; verif-harness text cktab | coqc Tables/ChecksumTables{Gen,Defs,Check}.v ; verif-harness text cksub ; "
+                       "verif-harness text mstext | coqc Tables/MsTextCases{Gen,Defs,Check}.v",
         "trusted_base": vlib.TRUSTED_BASE_COMMON + [
             "bech32 0.11.1 primitives::checksum::Engine is modelled (input_fe, mul_by_x_then_add, unpack), tied by the tables",
-            "Uint63 primitive integers (table transport only, evaluated by vm_compute; no axioms used)"],
+            "Uint63 primitive integers (table transport only, evaluated by vm_compute; no axioms used)",
+            "MiniscriptKey/FromStr of keys and hashes (opaque in the text theorems: hypothesis parse (print x) = Some x); "
+            "Tables/MsTextCasesDefs.v instantiates them for String keys (bijective base-256 numeration) and hash160 hex"],
         "evaluations": evaluations, "distinct_nontrivial": evaluations,
         "rule": "checksum: engine on all 95 single characters, all 9025 two-character strings, seeded random strings and "
                 "verify_checksum cases, compared with the model in Coq; every 1-substitution (position x character) and sampled "
                 "2-/in-group 3-4-substitutions of checksummed descriptors of 12 lengths against Descriptor::from_str; collision sweep; "
                 "expression-tree parser on every string over {a ( ) { } ,} up to length 5 (6 thorough) plus generated/edited/deep/wide strings, "
-                "compared with the model in Coq; print/parse/print of generated miniscripts (4 contexts, every alias spelling), descriptors, "
+                "compared with the model in Coq; miniscript text layer (from_tree AST or error class, Display text) in four contexts on "
+                "generated texts in three spellings, every wrapper prefix of length <= 2 (3 thorough; sampled in quick) over every fragment kind, "
+                "directed malformed texts and seeded edits, compared with the model in Coq; print/parse/print of generated miniscripts (4 contexts, every alias spelling), descriptors, "
                 "keys, policies, wallet policies with an independent structural dump",
     })
     rep.coverage["levels"] = {"checksum (Part A)": "proof + complete table tie + substitution campaign",
                               "expression tree (Part B)": "proof (see notes/C10.md for what is proved) + tie in Coq",
-                              "printers/parsers of miniscript, descriptor, key, policy, wallet policy (Part C)":
+                              "miniscript text layer: Display / from_tree (Part D)":
+                                  "proof (print-parse, fixed point, alias meaning; keys/hashes opaque, from_ast an arbitrary check) + tie in Coq",
+                              "printers/parsers of descriptor, key, policy, wallet policy; miniscript context rules (Part C)":
                                   "correspondence/oracle only: differential round trips on the real code, not modelled in Coq"}
     rep.assumptions = [
         "ChecksumModel.v transcribes checksum.rs and the bech32 engine it instantiates (tied on every run by the complete 1-/2-character tables and random strings)",
         "the BIP-380 reference algorithm in ChecksumModel.v (bip380_*) is a transcription of the BIP's Python",
+        "MsTextModel.v transcribes display.rs (as_node, fragment_name, conditional_fmt) and Miniscript::from_tree with the expression helpers it calls (tied on every run by Tables/MsTextCasesCheck.v)",
+        "miniscript text theorems: keys and hashes are opaque atoms whose parser inverts their printer (parse (print x) = Some x); Miniscript::from_ast is an arbitrary boolean check (the type check in the tie)",
     ]
